@@ -580,7 +580,10 @@ func registerModels(in *Interp) {
 				res := st.fresh("find", smt.String)
 				m := MatchTerm(r, s)
 				cs := []*smt.Term{smt.Implies(smt.Not(m), smt.Eq(res, smt.StrC("")))}
-				if body, anchoredBegin := anchoredBody(r.Known); anchoredBegin {
+				if r.Known.Full != nil && fullyAnchored(r.Known) {
+					// ^...$ : the match, if any, is the whole string
+					cs = append(cs, smt.Implies(m, smt.Eq(res, s)))
+				} else if body, anchoredBegin := anchoredBody(r.Known); anchoredBegin {
 					// a begin-anchored pattern matches a prefix that is in the body language
 					cs = append(cs, smt.Implies(m, smt.And(smt.PrefixOf(res, s), smt.InRe(res, body))))
 				} else {
@@ -700,6 +703,28 @@ func registerModels(in *Interp) {
 		return alts
 	}
 	registerTokenizer(in)
+}
+
+// fullyAnchored: the pattern is ^body$ with no other anchors.
+func fullyAnchored(k *smt.Known) bool {
+	if k == nil || k.Body == nil || k.Unsupported != "" {
+		return false
+	}
+	b := k.Body
+	if b.Op != "re.++" {
+		return false
+	}
+	first, last := b.Args[0], b.Args[len(b.Args)-1]
+	if first.Op != "str.to_re" || !strings.HasPrefix(first.Args[0].S, smt.MarkB) || last.Op != "str.to_re" || !strings.HasSuffix(last.Args[0].S, smt.MarkE) {
+		return false
+	}
+	n := 0
+	smt.Walk(b, func(x *smt.Term) {
+		if x.IsConst() {
+			n += strings.Count(x.S, smt.MarkB) + strings.Count(x.S, smt.MarkE)
+		}
+	})
+	return n == 2
 }
 
 func anchoredBody(k *smt.Known) (*smt.Term, bool) {
